@@ -65,8 +65,8 @@ func c23Configs() []*Config {
 }
 
 func TestC23(t *testing.T) {
-	runProperty(t, "C23", c23Configs(), nil,
-		"breadth-first exploration with state deduplication of ALL harness event sequences up to the configured depth over two real multiplexers on a harness-owned carrier inside a synctest bubble; events: open, accept, write(n) n in {0,1,W+1}, read(k) k in {0,1,W+1}, closeWrite, close (both sides), deliver next chunk A>B / B>A (thorough also: next byte, window 3, two streams); one case = one executed history; judged on every Read/Write result and at every quiescent state: byte k read on a stream = byte k the peer wrote on it (values encode stream, direction, offset), nothing read beyond what Write calls reported, io.EOF only after the peer's CloseWrite/Close and with all reported bytes read, reported bytes with nothing in flight are readable; non-trivial = at least one byte was read end to end; distinct by final state key",
+	runProperty(t, "C23", c23Configs(), nil, nil,
+		"breadth-first exploration with state deduplication of ALL harness event sequences up to the configured depth over two real multiplexers on a harness-owned carrier inside a synctest bubble; events: open, accept, write(n) n in {0,1,W+1}, read(k) k in {0,1,W+1}, closeWrite, close (both sides), deliver next chunk A>B / B>A (thorough also: next byte, window 3, two streams); one case = one executed history; judged on every Read/Write result and at every quiescent state: byte k read on a stream = byte k the peer wrote on it (values encode stream, direction, offset), nothing read beyond what Write calls reported, io.EOF only after the peer's CloseWrite/Close and with all reported bytes read, reported bytes with nothing in flight are readable, and with nothing in flight no Write stays blocked whose data fits the window the peer has freed by reading (delivery on the still-open direction of a half-closed stream included: configuration with one write buffer and a carrier holding one chunk per direction, so that window increments and close-write wait in the accumulator); non-trivial = at least one byte was read end to end; distinct by final state key (which includes the order of reads / half-closes made while the side had no write buffer)",
 		[]string{commonAssume1, commonAssume2, commonAssume3,
 			"branches in which a multiplexer records an internal error are not continued here (that is C24's subject); they are counted in branches_stopped_at_internal_error"})
 }
@@ -101,11 +101,82 @@ func c24Configs() []*Config {
 	return cfgs
 }
 
+// c24Scenarios: heartbeats ENABLED (transmit every 1 s, receive limit 4 s,
+// virtual time) on a harness-paced carrier that holds one chunk per direction,
+// so that a carrier Write takes (virtual) time: each round advances the clock
+// by 50 ms and hands over at most one chunk A>B.
+//
+//   - sustained-load: two established streams; every round A writes one byte
+//     on each stream that has no Write outstanding, B reads on each stream
+//     that has no Read outstanding, everything B sent is delivered and ONE
+//     chunk of A's is delivered. A's two write buffers are therefore never
+//     idle (one is in the carrier, one queued) for 12 virtual seconds = 3x the
+//     receive limit. Conforming endpoints must stay up: heartbeats have to get
+//     through between the data. (On the unchanged code the writer's select
+//     picks randomly between a due heartbeat and queued data at every round;
+//     the chance that 60 consecutive rounds all pick data is 2^-60.)
+//   - idle-link (positive control): nothing but time and deliveries for 12 s.
+func c24Scenarios() []scenario {
+	cfg := Config{Name: "heartbeat-1s-limit-4s-paced-carrier", W: 4, WriteBuffers: 2, Backlog: 2, MaxHeld: 1,
+		Opens: [2]int{2, 0}, Accepts: [2]int{0, 2}, MaxBytes: 1 << 20, WriteSizes: []int{1}, ReadSizes: []int{4},
+		Writers: [2]bool{true, false}, Readers: [2]bool{false, true}, Kinds: []string{"sleep"},
+		HeartbeatMs: 1000, HeartbeatLimitMs: 4000}
+	const slice, rounds = 50, 240
+	drainB := func(w *world, step func(Event) bool) bool {
+		for i := 0; i < 8 && !w.wires[1].idle(); i++ {
+			if !step(Event{K: "deliver", S: 1}) {
+				return false
+			}
+		}
+		return true
+	}
+	load := func(w *world, step func(Event) bool) {
+		for _, ev := range twoEstablished {
+			if !step(ev) {
+				return
+			}
+		}
+		for r := 0; r < rounds; r++ {
+			for _, id := range []int{1, 3} {
+				if w.streams[id].side[0].writeCall == nil && !step(Event{K: "write", S: 0, ID: id, N: 1}) {
+					return
+				}
+				if w.streams[id].side[1].readCall == nil && !step(Event{K: "read", S: 1, ID: id, N: 4}) {
+					return
+				}
+			}
+			if !step(Event{K: "sleep", N: slice}) || !drainB(w, step) {
+				return
+			}
+			if !w.wires[0].idle() && !step(Event{K: "deliver", S: 0}) {
+				return
+			}
+		}
+	}
+	idle := func(w *world, step func(Event) bool) {
+		for _, ev := range established {
+			if !step(ev) {
+				return
+			}
+		}
+		for r := 0; r < rounds; r++ {
+			if !step(Event{K: "sleep", N: slice}) || !drainB(w, step) {
+				return
+			}
+			if !w.wires[0].idle() && !step(Event{K: "deliver", S: 0}) {
+				return
+			}
+		}
+	}
+	return []scenario{{"sustained-load-two-streams-12s", cfg, load}, {"idle-link-12s", cfg, idle}}
+}
+
 func TestC24(t *testing.T) {
-	runProperty(t, "C24", c24Configs(), nil,
-		"breadth-first exploration with state deduplication of ALL harness event sequences up to the configured depth over two real multiplexers on a harness-owned carrier inside a synctest bubble; events: open, accept, cancel of a pending open/accept, write(n) and read(k) with n,k in {0,1,W+1} (also after close / end-of-stream), closeWrite, close, SetReadDeadline/SetWriteDeadline(clear | 1 s in the past | 1 s in the future), sleep 2 s (virtual), open beyond an accept backlog of 1, deliver next chunk A>B / B>A; oracle at every quiescent state: InternalError()==nil and Closed() not closed on both sides (the harness never closes a multiplexer and never fails the carrier in these runs); non-trivial = the history contains a zero-length operation, a deadline, a cancellation, a rejection or a (half-)close; distinct by final state key",
+	runProperty(t, "C24", c24Configs(), nil, c24Scenarios(),
+		"breadth-first exploration with state deduplication of ALL harness event sequences up to the configured depth over two real multiplexers on a harness-owned carrier inside a synctest bubble; events: open, accept, cancel of a pending open/accept, write(n) and read(k) with n,k in {0,1,W+1} (also after close / end-of-stream), closeWrite, close, SetReadDeadline/SetWriteDeadline(clear | 1 s in the past | 1 s in the future), sleep 2 s (virtual), open beyond an accept backlog of 1, deliver next chunk A>B / B>A; oracle at every quiescent state: InternalError()==nil and Closed() not closed on both sides (the harness never closes a multiplexer and never fails the carrier in these runs); non-trivial = the history contains a zero-length operation, a deadline, a cancellation, a rejection or a (half-)close; distinct by final state key. In addition two driver-policy scenarios with heartbeats ENABLED (transmit 1 s, receive limit 4 s, virtual time) on a carrier that holds one chunk per direction and is paced by the harness (50 ms of virtual time and one chunk A>B per round, 240 rounds = 12 s = 3x the limit): sustained back-to-back one-byte writes on two streams (both write buffers of the sender permanently busy) and an idle link (positive control); same oracle",
 		[]string{commonAssume1, commonAssume2, commonAssume3,
-			"the wire message trace is not decoded: the oracle is the receiver's own verdict (InternalError / Closed) as the property states"})
+			"the wire message trace is not decoded: the oracle is the receiver's own verdict (InternalError / Closed) as the property states",
+			"heartbeat scenario: on the unchanged code the writer's select chooses randomly between a due heartbeat and queued data; a false alarm needs 60 consecutive choices of data (probability 2^-60)"})
 }
 
 func c25Configs() []*Config {
@@ -166,7 +237,7 @@ func c25Scripted() []replayCase {
 }
 
 func TestC25(t *testing.T) {
-	runProperty(t, "C25", c25Configs(), c25Scripted(),
+	runProperty(t, "C25", c25Configs(), c25Scripted(), nil,
 		"breadth-first exploration with state deduplication of ALL harness event sequences up to the configured depth over two real multiplexers on a harness-owned carrier inside a synctest bubble; four configurations: (1) blocked reads/writes x {deadline set in the past, deadline 1 s ahead + 2 s virtual sleep, CloseWrite, Close, peer Close/CloseWrite + delivery, multiplexer Close}; (2) three opens against an accept backlog of 1 with accepts, cancellations and multiplexer Close; (3) two established streams, window 2, writer A / reader B (head-of-line); (4) carrier that holds one chunk per direction and one write buffer with write deadlines; oracle at every quiescent state: no read/write/open/accept is pending whose deadline has passed, whose stream or multiplexer was closed, whose context was cancelled or whose peer closed the stream (close delivered); with nothing in flight no Write is pending whose data fits the peer's window for that stream and at most Backlog opens of one side are pending; after closing both multiplexers every call has returned; non-trivial = at least one call was pending at a quiescent state of the history; distinct by final state key",
 		[]string{commonAssume1, commonAssume2, commonAssume3,
 			"'returns once X' is judged at the first quiescent state after X (virtual time, no wall clock)",
